@@ -1169,6 +1169,7 @@ func ruleFMT5(c *Ctx) {
 func ruleFMT6(c *Ctx) {
 	const rule = "FMT-6"
 	p := c.Prog
+	var writerAccept *types.Const
 	w := findParserWriter(c)
 	if w == nil || w.closures["_actions"] == nil {
 		c.unres(rule, "codegen.EmitParser/writers", "", "the closures computing the parser tables were not found")
@@ -1206,6 +1207,7 @@ func ruleFMT6(c *Ctx) {
 		if ac != nil {
 			acceptConst, _ = usesObj(info, ac).(*types.Const)
 		}
+		writerAccept = acceptConst
 		// the same constant object is bound to the template
 		bound := false
 		var boundName string
@@ -1358,6 +1360,14 @@ func ruleFMT6(c *Ctx) {
 				if h := ti.exactHole(vs.Values[0]); h != nil {
 					if id, ok := h.Expr.(*eIdent); ok && id.Name == "accept" {
 						acceptOK = true
+					}
+				}
+				if ti.Holes == nil && writerAccept != nil {
+					// concrete instance: the literal must equal the writer's constant
+					if v, ok := constInt(ti.Info, vs.Values[0]); ok {
+						if wv, ok2 := constant.Int64Val(writerAccept.Val()); ok2 && wv == v {
+							acceptOK = true
+						}
 					}
 				}
 			}
